@@ -19,7 +19,7 @@ static int pcre_exec_stub(void const *code, void const *extra, char const *subje
 {
   __CPROVER_assert(code != 0 && length >= 0 && start == 0 && (ovecsize == 0 || (ovecsize % 3 == 0 && __CPROVER_w_ok(ovector, sizeof(int) * (size_t)ovecsize))), "pcre_exec arguments: compiled pattern, non-negative length, ovector of a multiple of 3 ints");
   g_exec_called = 1; g_exec_code = code; g_exec_opts = options; g_exec_len = length; g_ovec = ovector; g_ovec_n = ovecsize;
-  int rc; __CPROVER_assume(rc >= -30 && rc <= 1 + ovecsize / 3);
+  int rc; __CPROVER_assume(rc >= -30 && rc <= 1 + ovecsize / 3 && (ovecsize == 0 || rc != 0));   /* 0 only means "ovector too small", which 3*(captures+1) never is */
   if(rc >= 0 && ovecsize > 0) {
     int a, b; __CPROVER_assume(0 <= a && a <= b && b <= length && ((options & PCRE_ANCHORED) == 0 || a == 0));
     ovector[0] = a; ovector[1] = b;
@@ -51,8 +51,12 @@ functions = [
                    (r'std::vector<int> ovec\(\((\w+->\w+)\+(\w)\)\*(\w),\w\);', r'size_t ovec_n = (\1+\2)*\3; int *ovec = ovec_alloc(ovec_n);', 1),
                    (r'pcre_exec\(', 'pcre_exec_stub(', 1), (r'&ovec\.front\(\)', 'ovec', 1), (r'ovec\.size\(\)', 'ovec_n', 1),
                    (r'marks\[i\]\.first', '(*marks_first(marks, i))', 1), (r'marks\[i\]\.second', '(*marks_second(marks, i))', 1)],
+         loops={0: '''__CPROVER_assigns(i, __CPROVER_object_whole(marks->first), __CPROVER_object_whole(marks->second))
+__CPROVER_loop_invariant(0 <= i && i <= pat_size && (i > 0 ==> (marks->first[0] == ovec[0] && marks->second[0] == ovec[1])) &&
+      ((g_k >= 1 && g_k < i) ==> (marks->first[g_k] == ovec[2 * g_k] && marks->second[g_k] == ovec[2 * g_k + 1])))
+__CPROVER_decreases(pat_size - i)'''},
          contract=r'''
-__CPROVER_requires(__CPROVER_r_ok(d, sizeof(*d)) && d->match_size >= 0 && d->match_size <= 1000 && VALID_RANGE(begin, end) && OFF(end) - OFF(begin) <= BUF_CAP && __CPROVER_rw_ok(marks, sizeof(*marks)) && !verif_thrown && !g_exec_called)
+__CPROVER_requires(__CPROVER_r_ok(d, sizeof(*d)) && d->match_size >= 0 && d->match_size <= 64 && VALID_RANGE(begin, end) && OFF(end) - OFF(begin) <= BUF_CAP && __CPROVER_rw_ok(marks, sizeof(*marks)) && !verif_thrown && !g_exec_called)
 __CPROVER_assigns(verif_thrown, *marks, g_exec_called, g_exec_code, g_exec_opts, g_exec_len, g_exec_rc, g_ovec, g_ovec_n)
 /* a match is reported only if the ANCHORED pattern (compiled from "(?:p)\z") matched from offset 0 to exactly the end of the subject: whole string, never a prefix or substring */
 __CPROVER_ensures(__CPROVER_return_value ==> (g_exec_called && g_exec_code == d->are && (g_exec_opts & PCRE_ANCHORED) != 0 && g_exec_len == OFF(end) - OFF(begin) && g_exec_rc >= 0 &&
